@@ -365,7 +365,14 @@ func runC17(t *simrt.Tape, o Opts) Outcome {
 		if !swept && t.Choose(3, "aws-config-region") == 1 {
 			cfgRegion = regions[t.Choose(len(regions), "aws-config-region.which")]
 		}
-		build := func(v2 bool, nodes map[string]*fakeRegion) (appencryption.KeyManagementService, error) {
+		// the reader may name the same master keys by another of their identifiers than the writer did
+		// (the writer by alias, the reader by key ARN): the envelope's arn fields are informational
+		readerARN := arn
+		if byAlias && t.Choose(2, "reader-names-keys-by-key-arn") == 1 {
+			readerARN = keyARN
+			st.Faults["config.reader-names-keys-differently"]++
+		}
+		build := func(v2 bool, nodes map[string]*fakeRegion, arn map[string]string) (appencryption.KeyManagementService, error) {
 			if v2 {
 				b := pluginv2.NewBuilder(crypto, arn).WithPreferredRegion(regions[pref]).WithAWSConfig(aws.Config{Region: cfgRegion}).
 					WithKMSFactory(func(cfg aws.Config, _ ...func(*kmsv2.Options)) pluginv2.AWSClient { return fakeV2{nodes[cfg.Region]} })
@@ -424,12 +431,12 @@ func runC17(t *simrt.Tape, o Opts) Outcome {
 		if cfgRegion != "" {
 			st.Faults["aws-config.region-preset"]++
 		}
-		wrapper, err := build(pair&1 == 1, wrapNodes)
+		wrapper, err := build(pair&1 == 1, wrapNodes, arn)
 		if err != nil {
 			violate("build-failed", "cannot build plugin: %v", err)
 			return
 		}
-		unwrapper, err := build(pair&2 == 2, unwrapNodes)
+		unwrapper, err := build(pair&2 == 2, unwrapNodes, readerARN)
 		if err != nil {
 			violate("build-failed", "cannot build plugin: %v", err)
 			return
